@@ -5,8 +5,12 @@ package keeper
 // Machine-checked contracts for the govc verifier (/verif). Comment-only; compiled only with -tags verif.
 
 // Per-epoch allocations of a gauge (C19): they sum exactly to the deposit and differ by at most one unit.
+// alloc: the scheduled allocation of epoch j (0-based) of a gauge: the deposit split evenly, the remainder spread over the last epochs.
+//@ pred alloc(total, epochs, j): total / epochs + ite(total % epochs != 0 && j >= epochs - total % epochs, 1, 0)
 //@ func SplitTotalAmountPerEpoch
 //@   property C19
+//@   modular
+//@   modifies nothing
 //@   requires totalEpochs >= 1
 //@   nopanic
 //@   loop 0 invariant #len: i <= totalEpochs && len(splits) == i
@@ -16,11 +20,12 @@ package keeper
 //@   loop 1 invariant #aux-epochs: totalEpochs >= 2 && zp >= 1 && zp < totalEpochs
 //@   loop 1 invariant #aux-quot: pp * totalEpochs <= totalAmount && pp == totalAmount / totalEpochs && zp == totalEpochs - totalAmount % totalEpochs
 //@   loop 1 invariant #sum: sum(splits, 0, i) == i * pp + max(0, i - zp)
-//@   loop 1 invariant #each: forall j :: 0 <= j && j < i ==> splits[j] == pp || splits[j] == pp + 1
+//@   loop 1 invariant #each: forall j :: 0 <= j && j < i ==> splits[j] == pp + ite(j >= zp, 1, 0)
 //@   ensures #c19-len: totalAmount >= totalEpochs ==> len(result) == totalEpochs
 //@   ensures #c19-sum: totalAmount >= totalEpochs ==> sum(result, 0, totalEpochs) == totalAmount
 //@   ensures #c19-even: forall j :: 0 <= j && j < len(result) ==> result[j] == totalAmount / totalEpochs || result[j] == totalAmount / totalEpochs + 1
 //@   ensures #c19-underfunded: totalAmount < totalEpochs ==> len(result) == 0
+//@   ensures #c19-schedule: forall j :: 0 <= j && j < len(result) ==> result[j] == alloc(totalAmount, totalEpochs, j)
 
 // The accrual formula goes through float64 (math.Pow): it is abstracted as a deterministic function of its arguments and the block time.
 //@ func (k Keeper) CalculationOfRewards
@@ -66,6 +71,7 @@ package keeper
 //@   property C19
 //@   modular
 //@   modifies bank
+//@   requires #c19-allocation-is-the-scheduled-one: gauge.ForSwapFee || (epochCount >= 1 && epochCount <= gauge.TotalTriggers && coinToDistribute.Amount == alloc(gauge.DepositAmount.Amount, gauge.TotalTriggers, epochCount - 1))
 //@   let data = k.GetRewardDistributionData(ctx, gauge, coinToDistribute, epochCount, epochDuration).0
 //@   loop 0 invariant #total: totalDistributionCoinsCalculated.Amount == sum(rewardDistributionData.RewardCoin.Amount, 0, idx0) && 0 <= idx0 && idx0 <= len(rewardDistributionData)
 //@   ensures #c19-reported-is-calculated: result1 == nil ==> result0.Amount == sum(data.RewardCoin.Amount, 0, len(data))
